@@ -13,7 +13,7 @@ import ast
 
 from ..core import Ctx, Ob, ok, unres, viol
 from ..flow import LocalDefs
-from ..model import AnalysisError, unparse, walk_no_nested
+from ..model import AnalysisError, unparse, walk_no_nested, dotted
 
 
 def _scope_singleton(e: ast.AST) -> ast.AST | None:
@@ -511,4 +511,45 @@ def r13g(ctx: Ctx, module: str = "cirkit.templates.data_modalities") -> list[Ob]
                     out.append(viol("R13g", f.qualname, "default-sum-weights", f"the default parameterisation of the sum weights is `{unparse(n.value)[:70]}`: without the softmax activation the rows are normalised at most at initialisation, and the partition function leaves 1 with the first parameter update", site))
     if not out:
         out.append(unres("R13g", module, "default-sum-weights", "no default Parameterization for sum weights found", ""))
+    return out
+
+
+# ------------------------------------------------------------------------------------------ R13h
+def r13h(ctx: Ctx, modules: tuple[str, ...] = ("cirkit.templates",)) -> list[Ob]:
+    """R13h -- arranging items *along* an ordering is indexing, not sorting.
+
+    ``ordering[t]`` is the variable at position t.  ``[items[v] for v in ordering]`` (or any lookup
+    ``items[ordering[t]]``) puts the item of that variable at position t.  Sorting the pairs
+    ``zip(ordering, items)`` by their first component -- or ``argsort(ordering)`` -- puts item k at
+    position ``ordering[k]``: the *inverse* permutation, which coincides with the ordering only for
+    involutions (identity, reversals, disjoint swaps -- what a test is likely to try)."""
+    out: list[Ob] = []
+    n_fn = 0
+    for f in ctx.repo.iter_functions():
+        if not f.module.name.startswith(modules):
+            continue
+        ords = [p.name for p in f.params if "ordering" in p.name or p.name in ("order", "perm", "permutation")]
+        if not ords:
+            continue
+        n_fn += 1
+        bad = []
+        for n in walk_no_nested(f.node):
+            if isinstance(n, ast.Call):
+                nm = (dotted(n.func) or "").split(".")[-1]
+                if nm == "sorted" and n.args:
+                    a = n.args[0]
+                    if isinstance(a, ast.Call) and (dotted(a.func) or "") == "zip" and a.args and isinstance(a.args[0], ast.Name) and a.args[0].id in ords and len(a.args) >= 2:
+                        bad.append((n, f"sorted(zip({a.args[0].id}, ..))"))
+                    key = next((k.value for k in n.keywords if k.arg == "key"), None)
+                    if key is not None and any(isinstance(x, ast.Name) and x.id in ords for x in ast.walk(key)) and not any(isinstance(x, ast.Name) and x.id in ords for x in ast.walk(a)):
+                        bad.append((n, f"sorted(.., key=<{ords[0]}>)"))
+                if nm == "argsort" and n.args and isinstance(n.args[0], ast.Name) and n.args[0].id in ords:
+                    bad.append((n, f"argsort({n.args[0].id})"))
+        if bad:
+            for n, what in bad:
+                out.append(viol("R13h", f.qualname, f"inverse-permutation:{what}", f"`{unparse(n)[:70]}` arranges by the inverse of `{ords[0]}`: item k lands at position {ords[0]}[k], whereas position t of the ordering holds variable {ords[0]}[t] -- the two agree only for self-inverse orderings", f"{f.module.relpath}:{n.lineno}"))
+        else:
+            out.append(ok("R13h", f.qualname, "along-the-ordering", f"nothing is sorted by / argsorted from `{ords[0]}`", f.loc))
+    if n_fn == 0:
+        out.append(unres("R13h", modules[0], "along-the-ordering", "no template function takes an ordering (another formulation): no verdict", ""))
     return out
